@@ -403,6 +403,7 @@ def r7_run_continues(ctx, rep):
               key='run_tests:continue', func=fi.qualname, where=ctx.where(fi, fi.node))
     from . import c01
     c01.r6_final_teardown(ctx, rep, R='C04.R7')
+    c01.map_chain(ctx, rep, 'C04.R7')
 
 
 STR_ONLY_METHODS = ('writelines', 'write', 'join')
